@@ -49,6 +49,12 @@ class Lengths:
             if isinstance(e.func, ast.Attribute) and e.func.attr == "to_bytes" and e.args:
                 w = res.iv_of(e.args[0])
                 return w.meet(IV(0, None))
+            if self.repo.dotted(e.func, f.mod) == "struct.pack" and e.args:
+                okf, fmt = self.repo.try_fold(e.args[0], f.mod)
+                sizes = {"x": 1, "c": 1, "b": 1, "B": 1, "?": 1, "h": 2, "H": 2, "i": 4, "I": 4, "l": 4, "L": 4, "q": 8, "Q": 8, "f": 4, "d": 8}
+                if okf and isinstance(fmt, str) and fmt[:1] in "<>!=" and all(ch in sizes for ch in fmt[1:]):
+                    return IV.const(sum(sizes[ch] for ch in fmt[1:]))
+                return TOP
             if fn in ("bytes", "bytearray", "memoryview") and len(e.args) == 1:
                 return self.exprlen(f, e.args[0], at, depth + 1)
             if fn in ("bytes", "bytearray") and not e.args:
@@ -117,6 +123,10 @@ class Lengths:
                 hi = res.iv_of(a[1] if len(a) > 1 else a[0])
                 n = _add(hi, IV(None if lo.hi is None else -lo.hi, None if lo.lo is None else -lo.lo))
                 out = _mul(out, n.meet(IV(0, None)))
+            elif isinstance(loop, ast.For):
+                # one trip per element: len(<iterable>) where the analysis knows it (grammar facts, slices of known lists)
+                n = res._len_iv(loop.iter, res.env_at(loop.iter), 0)
+                out = _mul(out, n.meet(IV(0, None)))
             else:
                 out = _mul(out, IV(0, None))
         return out
@@ -168,6 +178,8 @@ class Lengths:
                 if d is not None and isinstance(d, ast.Constant) and d.value is None:
                     continue  # default None: the list is absent on this path
                 out.append((caller, None))
+            elif isinstance(arg, ast.Constant) and arg.value is None:
+                continue  # explicitly absent
             elif isinstance(arg, ast.List):
                 out.append((caller, arg))
             elif isinstance(arg, ast.Name) and arg.id in caller.params:
